@@ -634,9 +634,11 @@ theorem run_v2 (P : X.Program) (inp : X.Input) (fuel : Nat) (β : X.Behaviour)
     (hg : P.globals.all isVarDecl = true) (hrun : X.run P inp fuel = .defined β) :
     ∃ m, P.procs.find? (·.name == "main") = some m ∧
       ((∃ r s, X.callUser fuel (v2Xc P fuel) m [] (v2St0 P inp) = .ok r s ∧
-          β.exit = 0 ∧ β.events = s.io.log.reverse ∧ β.stdinConsumed = inp.stdin.length - s.io.stdin.length) ∨
+          β.exit = 0 ∧ β.events = s.io.log.reverse ∧ β.stdinConsumed = inp.stdin.length - s.io.stdin.length ∧
+          β.returned = true) ∨
        (∃ code s, X.callUser fuel (v2Xc P fuel) m [] (v2St0 P inp) = .exit code s ∧
-          β.exit = code ∧ β.events = s.io.log.reverse ∧ β.stdinConsumed = inp.stdin.length - s.io.stdin.length)) := by
+          β.exit = code ∧ β.events = s.io.log.reverse ∧ β.stdinConsumed = inp.stdin.length - s.io.stdin.length ∧
+          β.returned = false)) := by
   unfold X.run at hrun
   cases hcp : X.checkProgram P with
   | error w => rw [hcp] at hrun; simp at hrun
@@ -670,14 +672,14 @@ theorem run_v2 (P : X.Program) (inp : X.Input) (fuel : Nat) (β : X.Behaviour)
           right
           refine ⟨code, s, rfl, ?_⟩
           rw [← hrun]
-          exact ⟨rfl, rfl, rfl⟩
+          exact ⟨rfl, rfl, rfl, rfl⟩
         | ok r s =>
           rw [hx] at hrun
           simp only [Result.defined.injEq] at hrun
           left
           refine ⟨r, s, rfl, ?_⟩
           rw [← hrun]
-          exact ⟨rfl, rfl, rfl⟩
+          exact ⟨rfl, rfl, rfl, rfl⟩
 
 /-! ### Start-up and exit stub -/
 
@@ -739,7 +741,10 @@ theorem v2_core (G : GCtx) (ok : G.OK) (fuel : Nat) (mem0 : Mem) (st0 : X.St) (h
     (spvI : Int) (iStub : Nat) (hhead : At G.env.ds 0 [.ref 0x9 "_start" true, .data spvI]) (hstub : At G.env.ds iStub v1Stub)
     (hg0 : GRep G st0 mem0) (hm1 : mem0.read 1 = BitVec.ofNat 32 G.spv) :
     match X.callUser fuel G.xc pm.p [] st0 with
-    | .ok _ s => ∃ c, Steps G.env (cfg 0 0 0 mem0) st0.io c s.io ∧ Exit G.env c s.io 0
+    | .ok _ s => ∃ c, Steps G.env (cfg 0 0 0 mem0) st0.io c s.io ∧ Exit G.env c s.io 0 ∧
+        -- `main` has returned to the exit stub with the stack pointer restored
+        ∃ a' b' mem', Steps G.env (cfg 0 0 0 mem0) st0.io (cfg (iStub + 3) a' b' mem') s.io ∧
+          mem'.read 1 = BitVec.ofNat 32 G.spv ∧ Steps G.env (cfg (iStub + 3) a' b' mem') s.io c s.io
     | .exit code s => ∃ c, Steps G.env (cfg 0 0 0 mem0) st0.io c s.io ∧ Exit G.env c s.io code
     | .undef _ => True := by
   have hcs := (all_correct ok fuel).2.2
@@ -767,7 +772,7 @@ theorem v2_core (G : GCtx) (ok : G.OK) (fuel : Nat) (mem0 : Mem) (st0 : X.St) (h
     obtain ⟨a', b', mem', hs, _, h1, _⟩ := this
     have htop := ok.top
     obtain ⟨c, hf, he⟩ := v2_finish G.env iStub hstub a' b' mem' s.io G.spv h1 htop (ok.code_lo _ (by omega))
-    exact ⟨c, (hstart.trans hs).trans hf, he⟩
+    exact ⟨c, (hstart.trans hs).trans hf, he, a', b', mem', hstart.trans hs, h1, hf⟩
 
 open V1Pos in
 /-- **The decidable side condition of the whole-program theorem for programs with several
@@ -794,14 +799,17 @@ theorem procCheck_fuel (P : X.Program) (st : Stages) (img : Image) (f : Nat) (pr
 theorem globalCheck_fuel (P : X.Program) (st : Stages) (img : Image) (f : Nat) (procs : List PInfo) (w : Nat) :
     globalCheck (mkG P st img f procs) w = globalCheck (mkG P st img 0 procs) w := rfl
 
-/-- **Whole programs with several procedures.**  `st` are the stages of the compilation of `P`,
-    `img` the assembled image; under the decidable check `v2Check` every defined behaviour of `P`
-    is the behaviour of the ISA on `img`. -/
-theorem v2_correct (P : X.Program) (st : Stages) (img : Image) (inp : X.Input) (fuel : Nat) (β : X.Behaviour)
-    (hasm : assembleDirs st.optimised = .ok img) (hchk : v2Check P st img = true)
-    (hrun : X.run P inp fuel = .defined β) :
-    ∃ n code j s' io, Isa.run n (Am.boot img) (Isa.IOSt.init inp.stdin inp.files) = .exited code j s' io ∧
-      code = β.exit ∧ io.log.reverse = β.events ∧ inp.stdin.length - io.stdin.length = β.stdinConsumed := by
+/-- Everything the whole-program theorems need of a compilation that passes `v2Check`. -/
+theorem v2_setup (P : X.Program) (st : Stages) (img : Image) (inp : X.Input) (fuel : Nat)
+    (hasm : assembleDirs st.optimised = .ok img) (hchk : v2Check P st img = true) :
+    ∃ (G : GCtx) (pm : PInfo), G.OK ∧ G.env = v1Env st img ∧ G.xc = v2Xc P fuel ∧ Good st.optimised img ∧
+      Peep st.lowered st.optimised (peepSt st.lowered) ∧ P.globals.all isVarDecl = true ∧
+      pm ∈ G.procs ∧ pm.p.name = "main" ∧ pm.p.isFunc = false ∧
+      (∀ m, P.procs.find? (·.name == "main") = some m → pm.p = m) ∧
+      At G.env.ds 0 [.ref 0x9 "_start" true, .data (spValue st.cg.globalsOffset)] ∧
+      At G.env.ds (2 + st.cg.data.length) v1Stub ∧
+      GRep G (v2St0 P inp) (Am.boot img).mem ∧ (Am.boot img).mem.read 1 = BitVec.ofNat 32 G.spv ∧
+      G.spv = (spValue st.cg.globalsOffset).toNat := by
   unfold v2Check at hchk
   rw [Bool.and_eq_true] at hchk
   obtain ⟨hgv, hchk⟩ := hchk
@@ -895,8 +903,6 @@ theorem v2_correct (P : X.Program) (st : Stages) (img : Image) (inp : X.Input) (
       rw [hGg] at h1
       rw [hGp] at h2
       exact v2_genv_none P fuel n h1 h2
-  -- the run
-  obtain ⟨m, hfind, hcases⟩ := run_v2 P inp fuel β hgv hrun
   cases hfm : procs.find? (fun pi => pi.p.name == "main") with
   | none => rw [hfm] at cmain; simp at cmain
   | some pm =>
@@ -906,7 +912,8 @@ theorem v2_correct (P : X.Program) (st : Stages) (img : Image) (inp : X.Input) (
     have hname : pm.p.name = "main" := by
       have := List.find?_some hfm
       simpa using this
-    have hpmm : pm.p = m := by
+    have hpmm : ∀ m, P.procs.find? (·.name == "main") = some m → pm.p = m := by
+      intro m hfind
       have h1 : (procs.map (·.p)).find? (fun p => p.name == "main") = some pm.p := by
         rw [List.find?_map]
         show Option.map (·.p) (procs.find? (fun pi => pi.p.name == "main")) = _
@@ -923,29 +930,42 @@ theorem v2_correct (P : X.Program) (st : Stages) (img : Image) (inp : X.Input) (
         obtain ⟨_, hval, _⟩ := hdata (j + 1) v hdat
         rw [hlabel j k l hd] at hval
         exact hval
-    have hcore := v2_core G ok fuel (Am.boot img).mem (v2St0 P inp) rfl pm hpm hname cmain
-      (spValue st.cg.globalsOffset) (2 + st.cg.data.length) hhead hstub hg0 hm1'
-    rw [hpmm, hGxc] at hcore
-    have hio : (v2St0 P inp).io = Isa.IOSt.init inp.stdin inp.files := rfl
-    rw [hio] at hcore
-    have hnd' : (labelNames st.lowered).Nodup := by
-      have := ok.nodup
-      rw [hGenv] at this
-      exact this
-    have hboot : bootCfg img = cfg 0 0 0 (Am.boot img).mem := rfl
-    rcases hcases with ⟨r, s, hx, e1, e2, e3⟩ | ⟨code, s, hx, e1, e2, e3⟩
-    · rw [hx] at hcore
-      obtain ⟨c, hsteps, hexit⟩ := hcore
-      rw [hGenv] at hsteps hexit
-      obtain ⟨c', hsteps', hexit'⟩ := peep_run (env' := envOf st.optimised img) hp hnd' _ _ c s.io 0 hsteps hexit
-      obtain ⟨n, j, s', hr⟩ := IAm_refines_Isa g _ c' s.io 0 (by rw [hboot]; exact hsteps') hexit'
-      exact ⟨n, 0, j, s', s.io, hr, e1.symm, e2.symm, e3.symm⟩
-    · rw [hx] at hcore
-      obtain ⟨c, hsteps, hexit⟩ := hcore
-      rw [hGenv] at hsteps hexit
-      obtain ⟨c', hsteps', hexit'⟩ := peep_run (env' := envOf st.optimised img) hp hnd' _ _ c s.io code hsteps hexit
-      obtain ⟨n, j, s', hr⟩ := IAm_refines_Isa g _ c' s.io code (by rw [hboot]; exact hsteps') hexit'
-      exact ⟨n, code, j, s', s.io, hr, e1.symm, e2.symm, e3.symm⟩
+    exact ⟨G, pm, ok, hGenv, hGxc, g, hp, hgv, hpm, hname, cmain, hpmm, hhead, hstub, hg0, hm1', hGspv⟩
+
+/-- **Whole programs with several procedures.**  `st` are the stages of the compilation of `P`,
+    `img` the assembled image; under the decidable check `v2Check` every defined behaviour of `P`
+    is the behaviour of the ISA on `img`. -/
+theorem v2_correct (P : X.Program) (st : Stages) (img : Image) (inp : X.Input) (fuel : Nat) (β : X.Behaviour)
+    (hasm : assembleDirs st.optimised = .ok img) (hchk : v2Check P st img = true)
+    (hrun : X.run P inp fuel = .defined β) :
+    ∃ n code j s' io, Isa.run n (Am.boot img) (Isa.IOSt.init inp.stdin inp.files) = .exited code j s' io ∧
+      code = β.exit ∧ io.log.reverse = β.events ∧ inp.stdin.length - io.stdin.length = β.stdinConsumed := by
+  obtain ⟨G, pm, ok, hGenv, hGxc, g, hp, hgv, hpm, hname, cmain, hpmm, hhead, hstub, hg0, hm1', _⟩ :=
+    v2_setup P st img inp fuel hasm hchk
+  obtain ⟨m, hfind, hcases⟩ := run_v2 P inp fuel β hgv hrun
+  have hcore := v2_core G ok fuel (Am.boot img).mem (v2St0 P inp) rfl pm hpm hname cmain
+    (spValue st.cg.globalsOffset) (2 + st.cg.data.length) hhead hstub hg0 hm1'
+  rw [hpmm m hfind, hGxc] at hcore
+  have hio : (v2St0 P inp).io = Isa.IOSt.init inp.stdin inp.files := rfl
+  rw [hio] at hcore
+  have hnd' : (labelNames st.lowered).Nodup := by
+    have := ok.nodup
+    rw [hGenv] at this
+    exact this
+  have hboot : bootCfg img = cfg 0 0 0 (Am.boot img).mem := rfl
+  rcases hcases with ⟨r, s, hx, e1, e2, e3, _⟩ | ⟨code, s, hx, e1, e2, e3, _⟩
+  · rw [hx] at hcore
+    obtain ⟨c, hsteps, hexit, _⟩ := hcore
+    rw [hGenv] at hsteps hexit
+    obtain ⟨c', hsteps', hexit'⟩ := peep_run (env' := envOf st.optimised img) hp hnd' _ _ c s.io 0 hsteps hexit
+    obtain ⟨n, j, s', hr⟩ := IAm_refines_Isa g _ c' s.io 0 (by rw [hboot]; exact hsteps') hexit'
+    exact ⟨n, 0, j, s', s.io, hr, e1.symm, e2.symm, e3.symm⟩
+  · rw [hx] at hcore
+    obtain ⟨c, hsteps, hexit⟩ := hcore
+    rw [hGenv] at hsteps hexit
+    obtain ⟨c', hsteps', hexit'⟩ := peep_run (env' := envOf st.optimised img) hp hnd' _ _ c s.io code hsteps hexit
+    obtain ⟨n, j, s', hr⟩ := IAm_refines_Isa g _ c' s.io code (by rw [hboot]; exact hsteps') hexit'
+    exact ⟨n, code, j, s', s.io, hr, e1.symm, e2.symm, e3.symm⟩
 
 /-- **The class V2 with its side conditions, as one decidable predicate of the source program.** -/
 def v2Ok (P : X.Program) : Bool :=
